@@ -189,4 +189,15 @@ int posix_spawn(pid_t *pid, const char *path, const posix_spawn_file_actions_t *
 	return 0;
 }
 
+#if !defined VERIF_CBMC
+/* native replay only: the rest of libev that echsd.c references but no harness reaches */
+struct ev_loop *ev_default_loop(unsigned int f) { (void)f; return NULL; }
+int ev_run(struct ev_loop *l, int f) { (void)l; (void)f; return 0; }
+void ev_loop_destroy(struct ev_loop *l) { (void)l; }
+void ev_signal_start(struct ev_loop *l, ev_signal *w) { (void)l; (void)w; }
+void ev_timer_start(struct ev_loop *l, ev_timer *w) { (void)l; (void)w; }
+void ev_io_start(struct ev_loop *l, ev_io *w) { (void)l; (void)w; }
+void ev_io_stop(struct ev_loop *l, ev_io *w) { (void)l; (void)w; }
+#endif
+
 #endif	/* INCLUDED_echsd_env_h_ */
